@@ -139,7 +139,7 @@ def pair_cases(N, M, tier, ids=(0, 0)):
                     yield dict(cls=cls, state=ylabel, lines=ypre + [line + ' @%d' % k, 'pb %s v90' % y, 'del %s' % y], test=len(ypre), fault=(k,))
         for xlabel, xpre, xs in xstates:
             for ylabel, ypre, ys in ystates:
-                for op in ('asc', 'asm', 'swp'):
+                for op in ('asc', 'asm', 'swp', 'appc', 'appm'):
                     if op == 'swp' and cx != cy:
                         continue
                     line = '%s %s %s' % (op, x, y)
@@ -228,12 +228,17 @@ def random_histories(N, M, seed, count, length=40):
                     others = [y for y in range(4) if y != x and size[y] is not None]
                     if others:
                         y = rng.choice(others)
-                        op = rng.choice(['asc', 'asm', 'swp'])
+                        op = rng.choice(['asc', 'asm', 'swp', 'appc', 'appm'])
                         if op == 'swp' and (x < 2) != (y < 2):
                             op = 'asm'
                         line = '%s %s %s' % (op, nm, NAMES[y])
                         if op == 'swp':
                             size[x], size[y] = size[y], size[x]
+                        elif op == 'appc':
+                            size[x] = s + size[y]
+                        elif op == 'appm':
+                            size[x] = s + size[y]
+                            size[y] = 0
                         else:
                             size[x] = size[y]
                     else:
